@@ -31,7 +31,7 @@ import (
 	"verifharness/hx"
 )
 
-var attackKinds = []string{"equivocate", "forged-rc", "early-prop", "solo", "ignore-lock", "stale-rc"}
+var attackKinds = []string{"equivocate", "forged-rc", "early-prop", "solo", "ignore-lock", "stale-rc", "relabel"}
 
 // publish-error and solo-netfail are not in the rotation: the model has no failing publish, so it is run without the model
 
@@ -305,6 +305,42 @@ func attackOne(out *hx.Out, seed, c uint64, only string) {
 		b := s.all(s.honest, []*specqbft.SignedMessage{s.sign(ld(1), msg, W)})
 		b = s.all(s.honest, append(ofType(b, specqbft.PrepareMsgType), byzAll(specqbft.PrepareMsgType, 2, rootW)...))
 		s.all(s.honest, append(ofType(b, specqbft.CommitMsgType), byzAll(specqbft.CommitMsgType, 2, rootW)...))
+	case "relabel":
+		// a Byzantine operator's own commit, then copies of it with the SAME signature under other operators' ids:
+		// one member's word must not become a quorum at the operator that has already verified the genuine message
+		byzIDs = fill()
+		setup(byzIDs...)
+		if s.byz[ld(1)] {
+			return
+		}
+		var b []*specqbft.SignedMessage
+		for _, id := range s.honest {
+			b = append(b, s.nodes[id].start(uint64(5*int(id)+1))...)
+		}
+		props := ofType(b, specqbft.ProposalMsgType)
+		if len(props) != 1 {
+			return
+		}
+		root1 := props[0].Message.Root
+		b = s.all(s.honest, props)
+		victim := s.honest[r.Intn(len(s.honest))]
+		s.all(s.honest, append(ofType(b, specqbft.PrepareMsgType), byzAll(specqbft.PrepareMsgType, 1, root1)...))
+		for _, nd := range s.nodes {
+			nd.net.take() // the correct operators' commits are lost
+		}
+		genuine := s.sign(byzIDs[0], s.base(specqbft.CommitMsgType, 1, root1), nil)
+		msgs := []*specqbft.SignedMessage{genuine}
+		for id := 1; id <= size && len(msgs) < q+1; id++ {
+			if oid := spectypes.OperatorID(id); oid != byzIDs[0] && oid != victim {
+				cp := genuine.DeepCopy()
+				cp.Signers = []spectypes.OperatorID{oid}
+				msgs = append(msgs, cp)
+			}
+		}
+		desc = fmt.Sprintf("victim=%d signer=%d relabelled=%d", victim, byzIDs[0], len(msgs)-1)
+		for _, m := range msgs { // in this order: the genuine one first
+			s.nodes[victim].deliver(m)
+		}
 	case "publish-error":
 		// The commit of some correct operators goes out but its publish reports an error (partial publish).  One
 		// operator decides V with those commits; the others, who saw no commit quorum (and a few of them no prepare
@@ -413,10 +449,12 @@ func attackOne(out *hx.Out, seed, c uint64, only string) {
 				nd.deliver(s.sign(byzIDs[i], s.base(specqbft.PrepareMsgType, 1, rootW), nil))
 			}
 		}
-		nd.forceNetFail = true
+		// the round change cannot be published - or cannot even be signed (key manager outage)
+		signFail := r.Chance(1, 2)
+		nd.forceNetFail, nd.forceSignFail = !signFail, signFail
 		nd.timeout()
-		nd.forceNetFail = false
-		desc = fmt.Sprintf("me=%d leader1=%d", me, ld(1))
+		nd.forceNetFail, nd.forceSignFail = false, false
+		desc = fmt.Sprintf("me=%d leader1=%d sign-fail=%v", me, ld(1), signFail)
 		for i := 0; i < q && i < len(byzIDs); i++ {
 			nd.deliver(s.sign(byzIDs[i], s.base(specqbft.PrepareMsgType, 2, rootW), nil))
 		}
